@@ -198,6 +198,23 @@ def observe(real, model: Model, HTTPHeaderDict) -> str | None:
     lowered = {d.swapcase(): v for d, v in model.mergeditems()}
     if not (real == lowered):
         return f"d == {lowered!r} (other casing) is False"
+    # a plain dict that spells a two-line field in two casings is an accepted source: equality goes through the
+    # same case-insensitive construction as the constructor does
+    by_name: dict = {}
+    for d, v in model.lines():
+        by_name.setdefault(d.lower(), []).append((d, v))
+    split = {}
+    ok_split = True
+    for low, lines in by_name.items():
+        if len(lines) == 2 and lines[0][0].swapcase() != lines[0][0]:
+            split[lines[0][0]] = lines[0][1]
+            split[lines[0][0].swapcase()] = lines[1][1]
+        elif len(lines) == 1:
+            split[lines[0][0]] = lines[0][1]
+        else:
+            ok_split = False
+    if ok_split and len(split) > len(by_name) and not (real == split):
+        return f"d == {split!r} (one field under two spellings) is False"
     bigger = dict(plain)
     bigger["Zz"] = "q"
     if real == bigger:
